@@ -181,6 +181,7 @@ F_SLOW_READER = 1      # origin reads slowly with a small receive buffer
 F_NO_EOF_WAIT = 2      # client can not half-close (TLS): origin closes after a short grace period
 F_ORIGIN_HALFCLOSE = 4  # origin FINs its direction as soon as it has sent everything, keeps reading
 F_TINY_RCVBUF = 8      # origin shrinks its receive buffer and reads slowly: back-pressure into the proxy
+F_STALL_RST = 16       # origin stops reading after the header and resets the connection 0.4 s later (data dies in flight)
 
 
 class OriginBank:
@@ -237,6 +238,13 @@ class OriginBank:
                     return
                 uid, c2s_total, s2c_len, flags = ph
                 rec["uid"] = uid
+                if flags & F_STALL_RST:
+                    import socket as _s, struct as _st
+                    await asyncio.sleep(0.4)
+                    w.get_extra_info("socket").setsockopt(_s.SOL_SOCKET, _s.SO_LINGER, _st.pack("ii", 1, 0))
+                    w.transport.abort()
+                    rec["aborted"] = True
+                    return
                 if flags & F_TINY_RCVBUF:
                     import socket as _s
                     w.get_extra_info("socket").setsockopt(_s.SOL_SOCKET, _s.SO_RCVBUF, 65536)
